@@ -868,12 +868,55 @@ fn drive_match(r: &mut Rng, n: usize, log: &mut Log) {
         if r.chance(1, 4) { let e: &str = *r.pick(EXTS); s.push_str(e); }
         Locale::from_bytes(s.as_bytes()).expect("well-formed by construction")
     };
+    // words the library's sources mention, by the production they fit (a code the implementation treats specially)
+    let dict_fit = |r: &mut Rng, kind: u8| -> Option<String> {
+        let d: Vec<String> = dict().iter().filter_map(|w| std::str::from_utf8(w).ok().map(|x| x.to_string())).filter(|w| match kind {
+            0 => Language::from_bytes(w.as_bytes()).is_ok(),
+            1 => Script::from_bytes(w.as_bytes()).is_ok(),
+            2 => Region::from_bytes(w.as_bytes()).is_ok(),
+            _ => Variant::from_bytes(w.as_bytes()).is_ok(),
+        }).collect();
+        if d.is_empty() { None } else { Some(d[r.below(d.len())].clone()) }
+    };
     let mut produced = 0;
+    let mut round = 0usize;
     while produced < n {
-        let la = *r.pick(LANGS);
-        let lb = if r.chance(3, 4) { la } else { *r.pick(LANGS) };
-        let a = mk(r, la);
-        let bb = mk(r, lb);
+        round += 1;
+        let (a, bb) = if round % 6 == 0 {
+            // long variant lists: equal, or differing in one member (often the last one), or one a prefix of the other
+            let k = if r.chance(1, 4) { *r.pick(&[8usize, 9, 16, 17, 33]) } else { 5 + r.below(12) };
+            let mut vs: Vec<Vec<u8>> = Vec::new();
+            while vs.len() < k { let v = gen_variant(r).to_ascii_lowercase(); if !vs.contains(&v) { vs.push(v); } }
+            vs.sort();
+            let mut ws = vs.clone();
+            match r.below(4) {
+                0 => {}
+                1 => { let i = ws.len() - 1; ws[i] = b"zzzzzzz9".to_vec(); }
+                2 => { let i = r.below(ws.len()); ws[i] = gen_variant(r).to_ascii_lowercase(); }
+                _ => { ws.pop(); }
+            }
+            let mkl = |head: &str, v: &Vec<Vec<u8>>| { let mut t = head.as_bytes().to_vec(); for x in v { t.push(b'-'); t.extend_from_slice(x); } Locale::from_bytes(&t).expect("well-formed by construction") };
+            let head = *r.pick(&["en", "en-US", "sr-Cyrl-RS", "und"]);
+            (mkl(head, &vs), mkl(if r.chance(3, 4) { head } else { "en" }, &ws))
+        } else if round % 6 == 3 {
+            // dictionary words in the positions they fit: against an absent field, a different value, themselves
+            let mut parts: Vec<String> = Vec::new();
+            let l = dict_fit(r, 0).filter(|_| r.chance(1, 2)).unwrap_or_else(|| "en".to_string());
+            let mut s1 = l.clone();
+            let mut s2 = if r.chance(2, 3) { l.clone() } else { "en".to_string() };
+            for kind in 1..4u8 {
+                let fallback = ["", "Latn", "US", "valencia"][kind as usize];
+                let w = dict_fit(r, kind).unwrap_or_else(|| fallback.to_string());
+                match r.below(4) { 0 => { s1.push('-'); s1.push_str(&w); } 1 => { s1.push('-'); s1.push_str(&w); s2.push('-'); s2.push_str(&w); }
+                                   2 => { s1.push('-'); s1.push_str(&w); s2.push('-'); s2.push_str(fallback); } _ => {} }
+                parts.push(w);
+            }
+            match (Locale::from_bytes(s1.as_bytes()), Locale::from_bytes(s2.as_bytes())) { (Ok(x), Ok(y)) => (x, y), _ => { let la = *r.pick(LANGS); (mk(r, la), mk(r, la)) } }
+        } else {
+            let la = *r.pick(LANGS);
+            let lb = if r.chance(3, 4) { la } else { *r.pick(LANGS) };
+            (mk(r, la), mk(r, lb))
+        };
         for (ra, rb) in [(false, false), (false, true), (true, false), (true, true)] {
             ev_match(log, &a, &bb, ra, rb);
             produced += 1;
